@@ -397,3 +397,27 @@ func memCloseVictim() (spec.Batch, func(segment.Segment, *ref.Content) string) {
 		return checkResult(exp, q, got, true)
 	}
 }
+
+func vecBuildMenu() []spec.Batch {
+	return []spec.Batch{
+		enum.VecCase{Docs: []int{2, 6, 0, 4}, Metric: "l2_norm"}.Batch(),
+		enum.VecCase{Docs: []int{1, 3}, Metric: "dot_product", Two: true}.Batch(),
+	}
+}
+
+func vecBuildOracle(seg segment.Segment, exp *ref.Content) string {
+	if m := checkStats(seg, exp); m != "" {
+		return m
+	}
+	if len(exp.Vecs) == 0 {
+		// no trace of an earlier vector batch
+		for _, f := range []string{"v", "w"} {
+			got, err := search(seg, vecQuery{Field: f, Q: []float32{0, 0}, K: 3})
+			if err != nil || len(got) != 0 {
+				return fmt.Sprintf("search on field %q of a batch without vectors: %v %v", f, got, err)
+			}
+		}
+		return ""
+	}
+	return vecMergeOracle(seg, exp)
+}
